@@ -640,40 +640,36 @@ fn generate_moves_for_piece(
         }
 
         // checks if the pawn has moved two spaces, if it has it can be captured en passant, record the space *behind* the pawn ie the valid capture square
-        if move_generation_mode == MoveGenerationMode::AllMoves {
-            // any existing en passant target expires with this move (this also takes its file out of the zobrist key)
-            new_board.unset_pawn_double_move(zobrist_hasher);
-            if kind == Pawn && (square_cords.0 as i8 - mov.0 as i8).abs() == 2 {
-                let en_passant_square = match color {
-                    White => Point(mov.0 + 1, mov.1),
-                    Black => Point(mov.0 - 1, mov.1),
-                };
+        // any existing en passant target expires with this move (this also takes its file out of the zobrist key)
+        new_board.unset_pawn_double_move(zobrist_hasher);
+        if kind == Pawn && (square_cords.0 as i8 - mov.0 as i8).abs() == 2 {
+            let en_passant_square = match color {
+                White => Point(mov.0 + 1, mov.1),
+                Black => Point(mov.0 - 1, mov.1),
+            };
 
-                new_board.pawn_double_move = Some(en_passant_square);
-                new_board.zobrist_key ^= zobrist_hasher.get_val_for_en_passant(en_passant_square.1);
-            }
-            // deal with pawn promotions
-            if mov.0 == BOARD_START && color == White && kind == Pawn {
-                promote_pawn(
-                    &new_board,
-                    White,
-                    square_cords,
-                    mov,
-                    new_moves,
-                    zobrist_hasher,
-                );
-            } else if mov.0 == BOARD_END - 1 && color == Black && kind == Pawn {
-                promote_pawn(
-                    &new_board,
-                    Black,
-                    square_cords,
-                    mov,
-                    new_moves,
-                    zobrist_hasher,
-                );
-            } else {
-                new_moves.push(new_board);
-            }
+            new_board.pawn_double_move = Some(en_passant_square);
+            new_board.zobrist_key ^= zobrist_hasher.get_val_for_en_passant(en_passant_square.1);
+        }
+        // deal with pawn promotions
+        if mov.0 == BOARD_START && color == White && kind == Pawn {
+            promote_pawn(
+                &new_board,
+                White,
+                square_cords,
+                mov,
+                new_moves,
+                zobrist_hasher,
+            );
+        } else if mov.0 == BOARD_END - 1 && color == Black && kind == Pawn {
+            promote_pawn(
+                &new_board,
+                Black,
+                square_cords,
+                mov,
+                new_moves,
+                zobrist_hasher,
+            );
         } else {
             new_moves.push(new_board);
         }
